@@ -118,7 +118,7 @@ def keepalive(v, d, seed, tier, only=None):
                 # that shows what the real code does (a death that repeats is a panic of the code under test)
                 log("NOTE keep-alive scenario %s: %s (%s); running it again alone" % (
                     json.dumps(e.get("frame"), sort_keys=True), "could not be set up" if e.get("note") else "the driver process died",
-                    e.get("note") or ((t.get("note") or "").strip().splitlines() or ["no output"])[-1][:300]))
+                    e.get("note") or " | ".join(x.strip() for x in ((t.get("note") or "").strip().splitlines() or ["no output"])[-14:] if not x.startswith("time="))[:1500]))
                 v.cov["keepalive_reruns_after_process_death"] = v.cov.get("keepalive_reruns_after_process_death", 0) + 1
                 sf1, tf1 = os.path.join(d, "ka1.json"), os.path.join(d, "ka1.ndjson")
                 json.dump([dict(sc=89999, seed=seed, steps=[dict(a="KeepAlive", frame=e.get("frame"))], opt=dict(reps=1))], open(sf1, "w"))
